@@ -78,12 +78,16 @@ def hypothesis_shard(payload: tuple) -> dict:
 
         try:
             prop()
-        except AssertionError:
-            if "last" in box:
-                new, case = box["last"]
-                res["failures"].append({"discs": new[:20], "case": case})
-            else:
+        except BaseException as e:  # noqa: BLE001
+            # AssertionError from the property, or Hypothesis' FlakyFailure group when the failing example does not
+            # fail again on the confirmation run (which, for a nondeterminism property, is the finding itself)
+            if isinstance(e, (KeyboardInterrupt, SystemExit)) or "last" not in box:
                 raise
+            new, case = box["last"]
+            if not isinstance(e, AssertionError):
+                for d in new:
+                    d["detail"] = str(d.get("detail", "")) + " [did not recur when Hypothesis re-ran the example: outcome varies between runs]"
+            res["failures"].append({"discs": new[:20], "case": case})
         res["known_hits"] = known.hits
     except HarnessError as e:
         res["harness_errors"].append(f"{e}")
